@@ -741,10 +741,12 @@ TERMINALS = {
     'any': ('{P}.any(cl.pred())', '{S}.any(|e| c2.pred()(&e))', 'eq', ['C02']),
     'all': ('{P}.all(cl.pred())', '{S}.all(|e| c2.pred()(&e))', 'eq', ['C02']),
     'for_each': ('{P}.for_each(cl.each())', '{S}.for_each(c2.each())', 'unit', ['C04']),
-    'min_by_key': ('{P}.min_by_key(|e: &E| e.v)', '{S}.min_by_key(|e: &E| e.v)', 'optkey', ['C03']),
-    'max_by_key': ('{P}.max_by_key(|e: &E| e.v)', '{S}.max_by_key(|e: &E| e.v)', 'optkey', ['C03']),
-    'min_by': ('{P}.min_by(|a: &E, b: &E| a.v.cmp(&b.v))', '{S}.min_by(|a: &E, b: &E| a.v.cmp(&b.v))', 'optkey', ['C03']),
-    'max_by': ('{P}.max_by(|a: &E, b: &E| a.v.cmp(&b.v))', '{S}.max_by(|a: &E, b: &E| a.v.cmp(&b.v))', 'optkey', ['C03']),
+    # non-injective key (v >> 1): ties between distinguishable elements are possible. Parallel: any extremal element
+    # is allowed (C03); sequential mode: exactly std's choice (C09: first minimum, LAST maximum)
+    'min_by_key': ('{P}.min_by_key(|e: &E| e.v >> 1)', '{S}.min_by_key(|e: &E| e.v >> 1)', 'optkey2', ['C03']),
+    'max_by_key': ('{P}.max_by_key(|e: &E| e.v >> 1)', '{S}.max_by_key(|e: &E| e.v >> 1)', 'optkey2', ['C03']),
+    'min_by': ('{P}.min_by(|a: &E, b: &E| (a.v >> 1).cmp(&(b.v >> 1)))', '{S}.min_by(|a: &E, b: &E| (a.v >> 1).cmp(&(b.v >> 1)))', 'optkey2', ['C03']),
+    'max_by': ('{P}.max_by(|a: &E, b: &E| (a.v >> 1).cmp(&(b.v >> 1)))', '{S}.max_by(|a: &E, b: &E| (a.v >> 1).cmp(&(b.v >> 1)))', 'optkey2', ['C03']),
     'sum': ('{P}.map(|e: E| (e.v as u32)).sum()', '{S}.map(|e: E| (e.v as u32)).sum::<u32>()', 'eq', ['C03']),
     'min': ('{P}.map(|e: E| e.v).min()', '{S}.map(|e: E| e.v).min()', 'eq', ['C03']),
     'max': ('{P}.map(|e: E| e.v).max()', '{S}.map(|e: E| e.v).max()', 'eq', ['C03']),
@@ -858,6 +860,11 @@ CMP = {
         }""",
     'v': """
         assert!(got.v == exp.v, "{PR}: value differs from the sequential fold");""",
+    'optkey2': """
+        assert!(got.is_some() == exp.is_some(), "{PR}: None-ness differs");
+        if let (Some(g), Some(e)) = (got, exp) {
+            assert!((g.v >> 1) == (e.v >> 1), "{PR}: result is not extremal");
+        }""",
     'optkey': """
         assert!(got.is_some() == exp.is_some(), "{PR}: None-ness differs");
         if let (Some(g), Some(e)) = (got, exp) {
@@ -906,7 +913,7 @@ QUICK_API = {
     ('map_fil_fil', 'count'), ('fil_fil', 'count'), ('fmap_fil_fil', 'count'), ('flat_fil_fil', 'count'), ('fil_map', 'count'), ('map_fil_map', 'count'),
 }
 # sequential-mode only additions (cheap there, intractable with two workers + merge contract)
-QUICK_API_SEQ = {('flat', 'reduce'), ('flat_fil_fil', 'count'), ('fmap_fil', 'count'), ('fmap_fil', 'max')}
+QUICK_API_SEQ = {('map', 'max_by_key'), ('fil', 'max_by'), ('flat', 'reduce'), ('flat_fil_fil', 'count'), ('fmap_fil', 'count'), ('fmap_fil', 'max')}
 # sequential collect_vec of map+filter style chains: 150-260 s when it works, and one run of the same harness grew to
 # 50 GB: optional (thorough) only
 SEQ_HEAVY = {('map_fil', 'collect_vec'), ('fmap', 'collect_vec'), ('fil_map', 'collect_vec'), ('map_fil_fil', 'collect_vec'), ('map_fil_map', 'collect_vec')}
@@ -982,6 +989,8 @@ def gen_api():
                         se = se.replace('Op::Xor', 'Op::Sub')
                     body.append('    let got = %s;' % pe.replace('{P}', 'source(it, params)' + pc))
                     body.append('    let exp = %s;' % se.replace('{S}', 'src_iter(data, %d)' % n + sc))
+                    if cmpk == 'optkey2' and not par:
+                        body.append('    assert!(got == exp, "C09: in sequential mode min_by/max_by(_key) must pick the same element as the std iterator (first minimum, last maximum)");')
                     body.append(CMP[cmpk].replace('{PR}', pr).replace('\n        ', '\n    '))
                     if not par and term not in SHORT and term not in ('reduce', 'fold'):
                         body.append('    assert!(same_call_multiset(&log, &log2), "C05: the multiset of (stage, argument) closure calls differs from the sequential chain");')
